@@ -24,6 +24,7 @@ type hookCtl struct {
 	planIdx  int
 	unforced bool
 	released bool // the call is over: nobody is held at the gate any more
+	watch    func(point, item string) // called for every event (under the lock, before the gate)
 }
 
 func newHookCtl(rq wproto.Req) *hookCtl {
@@ -43,6 +44,9 @@ const gateTimeout = 2 * time.Second
 
 func (h *hookCtl) hook(point string, gid uint64, item string) {
 	h.mu.Lock()
+	if h.watch != nil {
+		h.watch(point, item)
+	}
 	// gate: wait until every plan entry before "my" entry has happened
 	if !h.unforced && !h.released && h.planIdx < len(h.plan) {
 		for {
